@@ -247,7 +247,7 @@ func (x *btCtx) checkWrapper(relT, relB string) {
 		}
 		c.check(ok && sawZero, "C03.limit", "(*tree.BTree).iterWalk n==0", fn.Pos(), "n == 0 returns nil before locking", "the walk has no early return for limit 0")
 		// the callback
-		if len(fn.AnonFuncs) == 1 {
+		if len(fn.AnonFuncs) == 1 && fn.AnonFuncs[0].Signature.Results().Len() == 1 && fn.AnonFuncs[0].Signature.Params().Len() == 1 {
 			cb := fn.AnonFuncs[0]
 			ts, _ := c.Trace(cb, TraceConfig{})
 			okc, nAppend := true, 0
@@ -601,7 +601,29 @@ func (x *btCtx) checkCowPrimitives(rel string) {
 					stored = true
 				}
 			}
-			good := mf != nil && stored && t.Ret[0].Key() == mf.Res.Key()
+			retOK := mf != nil && t.Ret[0].Key() == mf.Res.Key()
+			if mf != nil && !retOK {
+				// `return n.children[i]` right after the store: mutableFor (checked above) writes only the node it
+				// returns, so the receiver's child slot read back is the copy just stored
+				r := t.Ret[0]
+				if r.Kind == KInit && r.Args[0].Kind == KIndexAddr && r.Args[0].Args[1].Key() == t.Params[1].Key() {
+					if base := r.Args[0].Args[0]; base.Kind == KInit && base.Args[0].Kind == KFieldAddr && base.Args[0].Field != nil && base.Args[0].Field.Name() == "children" && base.Args[0].Args[0].Key() == t.Params[0].Key() {
+						// nothing but loads between the store and the return
+						afterStore, clean := false, true
+						for _, e := range t.Events {
+							if e.Kind == EvStore && e.Addr.Kind == KIndexAddr && e.Val.Key() == mf.Res.Key() {
+								afterStore = true
+								continue
+							}
+							if afterStore && e.Kind != EvLoad && e.Kind != EvReturn {
+								clean = false
+							}
+						}
+						retOK = afterStore && clean
+					}
+				}
+			}
+			good := mf != nil && stored && retOK
 			if good {
 				// context = the parent's own context
 				_, isCow := isInitOfField(mf.Args[1], cowF)
@@ -790,10 +812,17 @@ func (x *btCtx) checkShapeAndLength(rel string) {
 				}
 			}
 			facts := t.factsBefore(len(t.Events))
-			hasKids := hasFact(facts, func(f Fact) bool {
-				z, isz := f.Y.intConst()
-				return f.X.Kind == KOp && f.X.Name == "len" && isz && z == 0 && f.Op == token.GTR
-			})
+			hasKids := false
+			for _, f := range facts {
+				// len(children) found positive, in any spelling (> 0, != 0, >= 1, negated == 0)
+				for _, side := range []*Sym{f.X, f.Y} {
+					if side.Kind == KOp && side.Name == "len" {
+						if pos, _ := factsSign(facts, lf(side)); pos {
+							hasKids = true
+						}
+					}
+				}
+			}
 			good := itemsTr != nil && lf(itemsTr.Args[1]).equal(lf(i))
 			if hasKids {
 				good = good && childTr != nil && lf(childTr.Args[1]).equal(lf(i).add(lfConst(1), 1))
@@ -1532,10 +1561,18 @@ func (c *Ctx) checkBtreeLookup(rel string) {
 				if e.Kind == EvCall && e.Callee != nil && e.Callee.Name() == callee {
 					call = e
 				}
+				// Has may also go to the node-level get on the root itself instead of through the tree's Get
+				if name == "Has" && e.Kind == EvCall && e.Callee != nil && e.Callee.Name() == "get" && len(e.Args) > 0 && strings.Contains(e.Args[0].Key(), ".root") {
+					call = e
+				}
 			}
 			if call == nil {
 				// allowed only for the empty tree
-				if !(t.Ret[0].isNilConst() && hasFact(t.factsBefore(len(t.Events)), func(f Fact) bool {
+				emptyAnswer := t.Ret[0].isNilConst()
+				if b, isB := t.Ret[0].boolConst(); name == "Has" && isB && !b {
+					emptyAnswer = true
+				}
+				if !(emptyAnswer && hasFact(t.factsBefore(len(t.Events)), func(f Fact) bool {
 					return strings.Contains(f.X.Key(), ".root") && f.Op == token.EQL && f.Y.isNilConst()
 				})) {
 					good = false
